@@ -110,7 +110,16 @@ func plausibleBody(r *gen.RNG, n int) []byte {
 
 // hostileInputs generates the inputs of one case and hands each to emit as a
 // complete byte stream for ReadPacket.
+type budgetExhausted struct{}
+
 func hostileInputs(env run.Env, phase, idx int, emit0 func(kind string, in []byte)) {
+	defer func() {
+		if x := recover(); x != nil {
+			if _, ok := x.(budgetExhausted); !ok {
+				panic(x)
+			}
+		}
+	}()
 	r := rng(env, "hostile", phase, idx)
 	// A header that declares megabytes it does not deliver makes ReadPacket
 	// allocate the declared size (which C05 allows). Such inputs come from
@@ -131,7 +140,10 @@ func hostileInputs(env run.Env, phase, idx int, emit0 func(kind string, in []byt
 				return
 			}
 			if budget < 0 && kind != "large-malformed" {
-				return
+				// stop generating as well: building thousands of further
+				// half-megabyte mutants only to drop them kept a case busy
+				// for tens of seconds without a single library call
+				panic(budgetExhausted{})
 			}
 			budget -= int64(len(in))
 		}
